@@ -274,6 +274,34 @@ pub fn c08(tier: &str, seed: u64) -> Report {
         if i < 3 { rep.sample(short_spec(&spec)); }
         check_attr_writers(&mut rep, "c08", &spec);
     }
+    // constructors of the text attributes: accepted iff the UTF-8 encoding fits the limit (bytes, not characters); an accepted value
+    // is stored unchanged and decode(encode(v)) == v (round 7: a constructor counting characters admitted values its own decoder refuses)
+    for unit in ["a", "é", "€", "🔑"] {
+        for lim in [513usize, 763] {
+            for bytes in lim.saturating_sub(9)..=lim + 9 {
+                let mut t = unit.repeat(bytes / unit.len());
+                while t.len() < bytes { t.push('a'); }
+                let fits = t.len() <= lim;
+                macro_rules! ctor { ($T:ident, $limit:expr, $get:ident) => {{
+                    if lim == $limit {
+                        rep.case(true, t.as_bytes());
+                        match $T::new(&t) {
+                            Ok(v) => {
+                                if !fits { rep.violate("C08:constructor", format!("{}::new accepts a text of {} UTF-8 bytes ({} characters), limit {}", stringify!($T), t.len(), t.chars().count(), $limit), format!("c08:ctor:{}:{}", stringify!($T), hex(t.as_bytes()))); }
+                                else if v.$get() != t { rep.violate("C08:constructor", format!("{}::new does not store the text it was given", stringify!($T)), format!("c08:ctor:{}:{}", stringify!($T), hex(t.as_bytes()))); }
+                                else {
+                                    let raw = v.to_raw();
+                                    match $T::try_from(&raw) { Ok(w) if w == v => {}, o => rep.violate("C08:roundtrip", format!("decode(encode(v)) for {}::new(text of {} bytes / {} characters): {:?}", stringify!($T), t.len(), t.chars().count(), o.map(|_| "a different value")), format!("c08:ctor:{}:{}", stringify!($T), hex(t.as_bytes()))) }
+                                }
+                            }
+                            Err(_) => if fits { rep.violate("C08:constructor", format!("{}::new refuses a text of {} UTF-8 bytes, limit {}", stringify!($T), t.len(), $limit), format!("c08:ctor:{}:{}", stringify!($T), hex(t.as_bytes()))); }
+                        }
+                    }
+                }}; }
+                ctor!(Username, 513, username); ctor!(Realm, 763, realm); ctor!(Nonce, 763, nonce); ctor!(Software, 763, software);
+            }
+        }
+    }
     // type codes against the RFC table
     let table: [(&str, u16, u16); 19] = [("USERNAME", Username::TYPE.value(), 0x0006), ("MESSAGE-INTEGRITY", MessageIntegrity::TYPE.value(), 0x0008), ("ERROR-CODE", ErrorCode::TYPE.value(), 0x0009), ("UNKNOWN-ATTRIBUTES", UnknownAttributes::TYPE.value(), 0x000a),
         ("REALM", Realm::TYPE.value(), 0x0014), ("NONCE", Nonce::TYPE.value(), 0x0015), ("MESSAGE-INTEGRITY-SHA256", MessageIntegritySha256::TYPE.value(), 0x001c), ("PASSWORD-ALGORITHM", PasswordAlgorithm::TYPE.value(), 0x001d), ("USERHASH", Userhash::TYPE.value(), 0x001e),
